@@ -11,7 +11,8 @@ TR(s) == O("tr", s)
 FR(k) == O("fr", k)
 NoAfter(p) == [t \in 1..Len(p) |-> <<>>]
 NoOwn(p) == [t \in 1..Len(p) |-> <<>>]
-Cfg(n, fr, prog, after, nb) == [kind |-> "box", n |-> n, fr |-> fr, own |-> NoOwn(prog), prog |-> prog, after |-> after, nb |-> nb]
+Cfg(n, fr, prog, after, nb) == [kind |-> "box", n |-> n, fr |-> fr, own |-> NoOwn(prog), prog |-> prog, after |-> after, nb |-> nb, smod |-> 0]
+ADV(k) == O("adv", k)
 
 \* three takers race for one receipt
 P_race3 == << <<TK(0)>>, <<TK(0)>>, <<TR(0), FR(0)>> >>
@@ -25,7 +26,16 @@ P_rel == << <<TR(0), EM(1), FR(0)>>, <<EM(2), TK(1), TK(0)>> >>
 \* set-up slot already taken and finished once (stale receipt on the board), reuse rounds in the run
 P_stale == << <<EM(1), TK(1), EM(2)>>, <<TK(0), TK(1), TK(2)>> >>
 
-Cfg_quick == { Cfg(1, <<>>, P_race3, NoAfter(P_race3), 1),
+\* WHAT-IF a slot field of 16 / 8 bits: the receipt of round 0 is honoured, the allocator's version advances by
+\* 2^16 - 1 (2^8 - 1), the slot is emplaced again; a second holder of the old receipt races with all of it.
+\* StaleNeverMatches FAILS in these what-if models; the counterexample is the behaviour replayed into the real code.
+P_wrap(k) == << <<TK(0), ADV(k), EM(1)>>, <<TK(0), TK(0)>> >>
+Cfg_wrap16 == { [Cfg(1, <<>>, P_wrap(65535), NoAfter(P_wrap(65535)), 2) EXCEPT !.smod = 65536] }
+Cfg_wrap8 == { [Cfg(1, <<>>, P_wrap(255), NoAfter(P_wrap(255)), 2) EXCEPT !.smod = 256] }
+\* the real code at the same distances (must hold)
+Cfg_far == { Cfg(1, <<>>, P_wrap(k), NoAfter(P_wrap(k)), 2) : k \in {255, 65535} }
+Cfg_quick == Cfg_far \cup
+             { Cfg(1, <<>>, P_race3, NoAfter(P_race3), 1),
                Cfg(1, <<>>, P_reuse, NoAfter(P_reuse), 2),
                Cfg(1, <<0>>, P_stale, NoAfter(P_stale), 3),
                Cfg(1, <<>>, P_rel, NoAfter(P_rel), 3) }
